@@ -92,6 +92,7 @@ fn main() {
             driver::run_property(
                 e.as_ref(),
                 driver::RunOpts {
+                    selftest_runs: if tier == Tier::Thorough { 1000 } else { 0 },
                     tier,
                     seed: seed_from(&args),
                     workers,
